@@ -224,6 +224,9 @@ class Report:
         self.assumptions = []
         self.known = known_findings(pid)
         self.wd = workdir(pid)
+        for f in os.listdir(self.wd):          # replay files of earlier runs would be misleading
+            if f.startswith("replay-") and f.endswith(".json"):
+                os.remove(os.path.join(self.wd, f))
 
     def add_tlc(self, res, note=None):
         self.cov["states"] += res["distinct"]
